@@ -111,17 +111,31 @@ impl<'tcx> Cx<'tcx> {
                 ProjectionElem::Deref => esc("*"),
                 ProjectionElem::Field(f, fty) => {
                     let bty = base.ty(&body.local_decls, self.tcx);
+                    let mut owner = String::new();
                     let name = match bty.ty.kind() {
                         ty::Adt(adt, _) => {
                             let v = match bty.variant_index {
                                 Some(v) => adt.variant(v),
                                 None => adt.non_enum_variant(),
                             };
+                            owner = self.path(adt.did());
+                            if adt.is_enum() {
+                                owner = format!("{}::{}", owner, v.name);
+                            }
                             format!("{}", v.fields[f].name)
+                        }
+                        ty::Closure(did, _) => {
+                            owner = format!("closure:{}", self.path(*did));
+                            format!("{}", f.index())
                         }
                         _ => format!("{}", f.index()),
                     };
-                    obj(vec![("f", esc(&name)), ("i", format!("{}", f.index())), ("ty", self.ty(fty))])
+                    obj(vec![
+                        ("f", esc(&name)),
+                        ("i", format!("{}", f.index())),
+                        ("ty", self.ty(fty)),
+                        ("o", esc(&owner)),
+                    ])
                 }
                 ProjectionElem::Downcast(name, idx) => {
                     let n = match name {
@@ -185,6 +199,15 @@ impl<'tcx> Cx<'tcx> {
                     _ => f64::NAN,
                 };
                 fields.push(("float", esc(&format!("{:?}", f))));
+            }
+        }
+        // reference to a `static` item: record its def path
+        if let Ok(val) = c.const_.eval(tcx, env, c.span) {
+            if let mir::ConstValue::Scalar(rustc_middle::mir::interpret::Scalar::Ptr(ptr, _)) = val {
+                let aid = ptr.provenance.alloc_id();
+                if let rustc_middle::mir::interpret::GlobalAlloc::Static(sdid) = tcx.global_alloc(aid) {
+                    fields.push(("static", esc(&self.path(sdid))));
+                }
             }
         }
         fields.push(("txt", esc(&format!("{}", c.const_))));
